@@ -561,6 +561,12 @@ def run(tier, seed, replay):
                                 Am[tuple(nzr)] += frac * thr * (Bm[tuple(nzr)] / abs(Bm[tuple(nzr)]))
                                 want_eq = bool(np.allclose(Am, Bm, rtol=rtol_, atol=atol_))
                                 attempt("isequal-tolerance", lambda: bool(_data.isequal(build(Am, fa, rng), build(Bm, fb, rng), atol_, rtol_)), [fa, fb], None, want_eq, data=data)
+
+                                # ... and the same when the tolerances are the ones of the settings (what `Qobj == Qobj` uses)
+                                def _with_settings():
+                                    with qutip.CoreOptions(atol=atol_, rtol=rtol_):
+                                        return bool(_data.isequal(build(Am, fa, rng), build(Bm, fb, rng)))
+                                attempt("isequal-settings-tolerance", _with_settings, [fa, fb], None, want_eq, data=data)
                 if r == c == 1:
                     # 1x1: "ket", "bra" and "operator" coincide, so there is no single reference, but whatever meaning a routine
                     # picks it picks for every storage form: compared with the all-Dense call
